@@ -232,7 +232,7 @@ class G:
 
     def _update(self):
         cls = self.cls()
-        table = self.r.choice(["t", "t", "k"])
+        table = self.r.choice(["t", "t", "t", "k", "k", "n"])
         cols = [c for c in TABLES[table][1]]
         setcols = [c for c in cols if c != "id"]
         n = self.r.choice([1, 1, 2, 3, 4])
@@ -278,7 +278,7 @@ class G:
 
     def _delete(self):
         cls = self.cls()
-        table = self.r.choice(["t", "t", "k", "u"])
+        table = self.r.choice(["t", "t", "t", "k", "k", "u", "u", "n", "s"])
         cols = TABLES[table][1]
         wheres = [self.crit(cols, 2) for _ in range(self.r.choice([0, 1, 1, 1, 2]))]
         hazard = False
